@@ -106,9 +106,14 @@ def analyse_one(prog, exp, expected_kinds=None, keep_lts=False, definition=None,
         if definition is not None:
             from . import wit as _wit
             if isinstance(definition, Exception):
-                rec.ob("TV", "%s: the definition in the test source is parsed by the documented "
-                       "grammar" % exp.id, False, key="TV:%s:parse" % exp.id, where=exp.span,
-                       detail=str(definition))
+                # the definition could not be read back from the test source (e.g. the `lexer!`
+                # invocation is produced by a `macro_rules!` wrapper): that is a limit of this tool's
+                # reader, not a defect of lexgen - the generated-code rules still apply to the
+                # expansion, translation validation is skipped for it and the number of repository
+                # lexers that were validated has a floor (cli.replay_gen)
+                rec.notes.append("TV not applied to %s: its definition could not be read from the test "
+                                 "source (%s)" % (exp.id, str(definition)[:120]))
+                res.stats["tv_skipped"] = True
             else:
                 kinds = {i: r.kind for i, r in enumerate(definition.rules_in_order())}
                 for k, kind in sorted(kinds.items()):
